@@ -2,8 +2,11 @@
 //
 // Input  VERIF_CASES: ndjson written by /verif/harness/cmd/winpol, one case per line:
 //
-//	{"case":n,"cls":s,"msgs":[{"k":"ipset|policy|profile|wep","pb":<protojson>}],"hostAddrs":[s],
-//	 "staticFile":s,"ref":{...,"polByMsg":{"m<i>":{"ingress":[..],"egress":[..]}}}}
+//	{"case":n,"cls":s,"msgs":[{"k":"ipset|policy|profile|wep|apply","pb":<protojson>}],"hostAddrs":[s],
+//	 "staticFile":s,"ref":{...,"eps":[{"tiers","profiles"}],"polByMsg":{"m<i>":{"ingress":[..],"egress":[..]}}}}
+//
+// A case may hold several workload endpoints (ref.eps), each followed by an "apply" marker: they are programmed
+// one after the other on the SAME dataplane instance (shared PolicySets cache).
 //
 // For every case a fresh Windows dataplane driver is built with the real constructor
 // (NewWinDataplaneDriver: IP-set cache + IPSetsManager, PolicySets, policyManager, endpointManager), the
@@ -14,7 +17,8 @@
 // applied (activeWlACLPolicies) and every GetPolicySetRules result are exported field by field to the
 // HNS rule IR of /verif/specs/lib/HNS.tla.  Nothing is evaluated or expected here.
 //
-// Output VERIF_OUT: one {"t":case,"ev":"case",...} line per case (format: /verif/specs/winpol/WinSem.tla).
+// Output VERIF_OUT: one {"t":id,"ev":"case",...} line per programmed endpoint (format: /verif/specs/winpol/WinSem.tla;
+// "src" = the input case), plus re-read lines for multi-endpoint cases (see verifRunCase).
 package windataplane
 
 import (
@@ -47,10 +51,14 @@ func (verifFakeHNS) GetHNSSupportedFeatures() hns.HNSSupportedFeatures {
 }
 
 func (verifFakeHNS) HNSListEndpointRequest() ([]hns.HNSEndpoint, error) {
-	return []hns.HNSEndpoint{{
-		Id: "verif-ep", Name: "verif-ep", VirtualNetworkName: "Calico",
-		IPAddress: net.ParseIP("10.65.0.2"), State: hns.Attached,
-	}}, nil
+	var eps []hns.HNSEndpoint
+	for k := 2; k < 10; k++ {
+		eps = append(eps, hns.HNSEndpoint{
+			Id: fmt.Sprintf("verif-ep%d", k), Name: fmt.Sprintf("verif-ep%d", k), VirtualNetworkName: "Calico",
+			IPAddress: net.ParseIP(fmt.Sprintf("10.65.0.%d", k)), State: hns.Attached,
+		})
+	}
+	return eps, nil
 }
 
 type verifCall struct {
@@ -195,7 +203,11 @@ func verifDecode(t *testing.T, m verifMsg) googleproto.Message {
 	return msg
 }
 
-func verifRunCase(t *testing.T, c *verifCase) verifM {
+// verifRunCase runs one case (one dataplane instance) and returns its output lines: one per programmed
+// endpoint, taken right after the apply() that programmed it, plus - when the case has several endpoints -
+// one more per earlier endpoint with the endpoint manager's record of the applied rules (activeWlACLPolicies)
+// read again after ALL endpoints were programmed ("reread": true, no calls).
+func verifRunCase(t *testing.T, c *verifCase) []verifM {
 	// static-rules.json is read from the directory of the executable by the real constructor
 	staticPath := filepath.Join(filepath.Dir(os.Args[0]), policysets.StaticFileName)
 	_ = os.Remove(staticPath)
@@ -220,16 +232,13 @@ func verifRunCase(t *testing.T, c *verifCase) verifM {
 	dp.endpointMgr.policysetsDataplane = rec
 	dp.endpointMgr.hns = verifFakeHNS{}
 	// the static rules exactly as the real reader loaded them (before any priority rewriting)
-	var static []verifM
+	static := []verifM{}
 	for _, dir := range []bool{true, false} {
 		for _, r := range dp.policySets.GetPolicySetRules(nil, dir, true) {
 			if strings.HasPrefix(r.Id, "verif-") { // the provider prefix of generated static files
 				static = append(static, verifIR(t, r))
 			}
 		}
-	}
-	if static == nil {
-		static = []verifM{}
 	}
 
 	polsets := verifM{"_none": verifM{"ingress": []any{}, "egress": []any{}}}
@@ -239,7 +248,61 @@ func verifRunCase(t *testing.T, c *verifCase) verifM {
 			t.Fatalf("HARNESS: %v", err)
 		}
 	}
-	var wepID *proto.WorkloadEndpointID
+	var eps []map[string]json.RawMessage
+	if err := json.Unmarshal(c.Ref["eps"], &eps); err != nil {
+		t.Fatalf("HARNESS: case %d: bad ref.eps: %v", c.Case, err)
+	}
+	line := func(k int, reread bool) verifM {
+		n := k + 1
+		if reread {
+			n += len(eps)
+		}
+		id := c.Case
+		if len(eps) > 1 {
+			id = c.Case*100 + n
+		}
+		out := verifM{"ev": "case", "t": id, "case": id, "src": c.Case, "ep": k, "reread": reread, "cls": c.Cls, "panic": "",
+			"static": static, "polsets": polsets, "acl": []verifM{}, "calls": []verifM{}}
+		for key, v := range c.Ref {
+			if key != "polByMsg" && key != "eps" {
+				out[key] = v
+			}
+		}
+		for key, v := range eps[k] {
+			out[key] = v
+		}
+		return out
+	}
+	applied := func(id *proto.WorkloadEndpointID) []verifM {
+		rules, ok := dp.endpointMgr.activeWlACLPolicies[types.ProtoToWorkloadEndpointID(id)]
+		if !ok {
+			t.Fatalf("HARNESS: case %d: the endpoint manager applied no rules (endpoint not resolved?)", c.Case)
+		}
+		return verifIRs(t, rules)
+	}
+	callsSince := func(from int) []verifM {
+		calls := []verifM{}
+		for _, cl := range rec.calls[from:] {
+			dir := "Out"
+			if cl.in {
+				dir = "In"
+			}
+			rs := []verifM{}
+			for i := range cl.rules {
+				rs = append(rs, verifIR(t, &cl.rules[i]))
+			}
+			ids := cl.ids
+			if ids == nil {
+				ids = []string{}
+			}
+			calls = append(calls, verifM{"ids": ids, "dir": dir, "drop": cl.drop, "rules": rs})
+		}
+		return calls
+	}
+
+	var lines []verifM
+	var wepIDs []*proto.WorkloadEndpointID
+	hostSent := false
 	panicText := ""
 	func() {
 		defer func() {
@@ -251,9 +314,26 @@ func verifRunCase(t *testing.T, c *verifCase) verifM {
 			}
 		}()
 		for i, m := range c.Msgs {
+			if m.K == "apply" {
+				if len(wepIDs) != len(lines)+1 || len(wepIDs) > len(eps) {
+					t.Fatalf("HARNESS: case %d: every apply marker must follow exactly one new endpoint", c.Case)
+				}
+				if !hostSent && c.HostAddrs != nil {
+					dp.endpointMgr.OnHostAddrsUpdate(append([]string{}, c.HostAddrs...)) // = the ifaceAddrUpdates branch of the main loop
+					hostSent = true
+				}
+				from := len(rec.calls)
+				dp.apply()
+				k := len(lines)
+				ln := line(k, false)
+				ln["acl"] = applied(wepIDs[k])
+				ln["calls"] = callsSince(from)
+				lines = append(lines, ln)
+				continue
+			}
 			msg := verifDecode(t, m)
 			if w, ok := msg.(*proto.WorkloadEndpointUpdate); ok {
-				wepID = w.Id
+				wepIDs = append(wepIDs, w.Id)
 			}
 			before := len(rec.added)
 			for _, mgr := range dp.allManagers { // = processMsgFromCalcGraph
@@ -265,47 +345,21 @@ func verifRunCase(t *testing.T, c *verifCase) verifM {
 				}
 			}
 		}
-		if c.HostAddrs != nil {
-			dp.endpointMgr.OnHostAddrsUpdate(append([]string{}, c.HostAddrs...)) // = the ifaceAddrUpdates branch of the main loop
-		}
-		dp.apply()
 	}()
-	out := verifM{"ev": "case", "t": c.Case, "case": c.Case, "cls": c.Cls, "panic": panicText, "static": static, "polsets": polsets}
-	for k, v := range c.Ref {
-		if k != "polByMsg" {
-			out[k] = v
-		}
+	if panicText != "" {
+		ln := line(len(lines), false)
+		ln["panic"] = panicText
+		return append(lines, ln)
 	}
-	acl := []verifM{}
-	if panicText == "" {
-		if wepID == nil {
-			t.Fatalf("HARNESS: case %d has no workload endpoint message", c.Case)
-		}
-		rules, ok := dp.endpointMgr.activeWlACLPolicies[types.ProtoToWorkloadEndpointID(wepID)]
-		if !ok {
-			t.Fatalf("HARNESS: case %d: the endpoint manager applied no rules (endpoint not resolved?)", c.Case)
-		}
-		acl = verifIRs(t, rules)
+	if len(lines) != len(eps) {
+		t.Fatalf("HARNESS: case %d programmed %d of %d endpoints", c.Case, len(lines), len(eps))
 	}
-	out["acl"] = acl
-	calls := []verifM{}
-	for _, cl := range rec.calls {
-		dir := "Out"
-		if cl.in {
-			dir = "In"
-		}
-		rs := []verifM{}
-		for i := range cl.rules {
-			rs = append(rs, verifIR(t, &cl.rules[i]))
-		}
-		ids := cl.ids
-		if ids == nil {
-			ids = []string{}
-		}
-		calls = append(calls, verifM{"ids": ids, "dir": dir, "drop": cl.drop, "rules": rs})
+	for k := 0; k+1 < len(eps); k++ {
+		ln := line(k, true)
+		ln["acl"] = applied(wepIDs[k])
+		lines = append(lines, ln)
 	}
-	out["calls"] = calls
-	return out
+	return lines
 }
 
 func TestVerifWinpol(t *testing.T) {
@@ -335,12 +389,14 @@ func TestVerifWinpol(t *testing.T) {
 		if err := json.Unmarshal(sc.Bytes(), &c); err != nil {
 			t.Fatalf("HARNESS: bad case line: %v", err)
 		}
-		b, err := json.Marshal(verifRunCase(t, &c))
-		if err != nil {
-			t.Fatal(err)
+		for _, ln := range verifRunCase(t, &c) {
+			b, err := json.Marshal(ln)
+			if err != nil {
+				t.Fatal(err)
+			}
+			w.Write(b)
+			w.WriteByte('\n')
 		}
-		w.Write(b)
-		w.WriteByte('\n')
 		n++
 	}
 	if err := sc.Err(); err != nil {
